@@ -155,6 +155,18 @@ ELEMS = set("H He Li Be B C N O F Ne Na Mg Al Si P S Cl Ar K Ca Sc Ti V Cr Mn Fe
             "Mc Lv Ts Og".split())
 
 
+# rules with a constraints section (recognised, not supported): every character-level prefix of them is read
+CONSTRAINED = [
+    "rule k1{ reactant r1{ C labeled c1 H labeled h1 single bond to c1 } constraints{ r1.formula is C2H4O } "
+    "increase number of radical (c1) increase number of radical (h1) break bond(c1,h1) }",
+    "rule k2{ reactant r1{ C labeled c1 C labeled c2 double bond to c1 } constraints{ r1.size <4 && r1 is cyclic } "
+    "decrease bond order (c1,c2) increase number of radical (c1) increase number of radical (c2) }",
+    "rule k3{ reactant r1{ O labeled o1 H labeled h1 single bond to o1 } constraints{ ! r1 is aromatic || "
+    "( r1.charge =0 && r1.formula is CH4O ) } break bond(o1,h1) increase number of radical (o1) "
+    "increase number of radical (h1) }",
+]
+
+
 def build_corpus(rng_, thorough):
     base = []
     nfrag, nrule = (600, 300) if thorough else (110, 60)
@@ -167,6 +179,17 @@ def build_corpus(rng_, thorough):
     ship = shipped_texts()
     base += ship if thorough else ship[::4]
     corpus = list(base) + EXPLICIT
+    for t in CONSTRAINED:
+        corpus.append(t)
+        corpus += [t[:k] for k in range(len(t))] if thorough else [t[:k] for k in range(0, len(t), 2)]
+        corpus += rg.mutants(rng_, t, per_kind=None if thorough else 8)
+    # a carriage return is not filler: alone, before a line feed, at the very end
+    for t in base[::(3 if thorough else 9)]:
+        toks = t.split(' ')
+        k = rng_.randrange(len(toks))
+        corpus.append(' '.join(toks[:k]) + '\r' + ' '.join(toks[k:]))
+        corpus.append(t.replace('\n', '\r\n', 1) if '\n' in t else t + '\r\n')
+        corpus.append(t + '\r')
     for t in base:
         corpus += rg.mutants(rng_, t, per_kind=None if thorough and len(t) < 160 else (6 if thorough else 4))
     seen, out = set(), []
